@@ -11,6 +11,11 @@ import GocoinV.Proofs.C08_Bytes
 import GocoinV.Proofs.C08_Primes
 import GocoinV.Proofs.C08_TabAll
 import GocoinV.Proofs.C08_Sqr
+import GocoinV.Proofs.C08_MultGen
+import GocoinV.Proofs.C08_Scalar
+import GocoinV.Proofs.C08_MultGenFull
+import GocoinV.Proofs.C08_Ecmult
+import GocoinV.Proofs.C08_Lift
 
 namespace GocoinV.Props.C08
 open GocoinV.C08 GocoinV.Gen.Field5x52 GocoinV.Gen
@@ -149,24 +154,118 @@ theorem prec_spec : precRowsOK 64 Secp.G (pts Tables.precAll) = true := prec_row
 /-- `fin` is minus the sum of the 64 row bases, −Σ_j 16^j·G (the correction `ECmultGen` adds last). -/
 theorem fin_spec : ptOfLimbs Tables.fin = Secp.neg (headsSum 64 (pts Tables.precAll) none) := fin_neg_sum
 
-/-
-  OPEN (not proved; covered by the differential run only — go/cmd/c08 compares the generated `mul`/`sqr`
-  and the hand group model limb-for-limb with the Go code and evaluates the statements below on the real
-  code against math/big for the generated edge/random inputs):
+/-! ### the field F_p = ZMod P, `Fe.z a` = residue of the value, `FeS a m v` = "magnitude ≤ m and residue v" -/
 
-  -- OPEN: theorem mul_spec (a b : Fe) (ha : a.mag 8) (hb : b.mag 8) :
-  --   (mul a b).val % P = a.val * b.val % P ∧ (mul a b).mag 1
-  --   (needs: every 128-bit accumulator (hi,lo) of the 19 partial products stays < 2^128 — interval
-  --    lemma per accumulation step — and the congruence 2^260 ≡ R = 0x1000003D10 (mod p))
-  -- OPEN: theorem sqr_spec (a : Fe) (ha : a.mag 8) : (sqr a).val % P = a.val * a.val % P ∧ (sqr a).mag 1
-  -- OPEN: inv_spec / sqrt_spec for the addition chains `C08.inv`, `C08.sqrt` (follow from mul_spec/sqr_spec,
-  --   p_prime and a^(p-2), a^((p+1)/4) exponent bookkeeping)
-  -- OPEN: double_correct / add_correct / addXY_correct (Model.Group vs GocoinV.Secp.dbl/add incl. ∞, P+P,
-  --   P+(−P)), magnitude contract of the group formulas
-  -- OPEN: wnaf_sound (Σ dᵢ·2^i = a, digits odd, |dᵢ| < 2^(w−1), length ≤ 129 for |a| < 2^128),
-  --   split_exp_sound (a ≡ r1 + r2·λ (mod n), |r1|,|r2| < 2^128)
-  -- OPEN: ecmultGen_correct, ecmult_correct (the latter under the explicit hypothesis #E(F_p) = n)
-  -- OPEN: prec pointwise form prec[j][i] = (i+1)·16^j·G as a corollary of `prec_spec` (row relations proved)
+/-- `Field.Inv` (addition chain of field.go over the generated Mul/Sqr): for ALL inputs of magnitude ≤ 8 the
+    result is the inverse in F_p (0 ↦ 0; it is a^(p−2), exponent bookkeeping checked link by link), magnitude 1. -/
+theorem inv_spec (a : Fe) (m : Nat) (ha : a.mag m) (hm : m ≤ 8) : FeS (inv a) 1 (a.z)⁻¹ := inv_S a m ha hm
+
+/-- `Field.Sqrt`: for ALL inputs of magnitude ≤ 8 the result is a^((p+1)/4) in F_p, magnitude 1; … -/
+theorem sqrt_spec (a : Fe) (m : Nat) (ha : a.mag m) (hm : m ≤ 8) : FeS (sqrt a) 1 (a.z ^ ((P + 1) / 4)) :=
+  sqrt_pow a m ha hm
+
+/-- … and whenever the input is a square r² in F_p, `Sqrt(a)`² = a. -/
+theorem sqrt_is_root (a : Fe) (m : Nat) (ha : a.mag m) (hm : m ≤ 8) (r : F) (hr : r * r = a.z) :
+    (sqrt a).z * (sqrt a).z = a.z := by
+  rw [(sqrt_pow a m ha hm).2]; exact sqrt_sq a.z r hr
+
+example : ∃ r : F, r * r = (setInt 4).z := ⟨2, by rw [(FeS.ofInt 4 (by decide)).2]; norm_num⟩
+
+/-- `XYZ.Double` (Model.Group over the generated limb functions) against the reference affine law `Secp.dbl`
+    under (X,Y,Z) ↦ (X/Z², Y/Z³): for EVERY input within the group-layer contract `XYZ.ok` (X ≤ 6, Y ≤ 4, Z ≤ 2
+    magnitudes — non-normalised operands included —, Z ≠ 0 for finite points) the result is within the contract and
+    stands for the double; ∞ ↦ ∞ and points with y = 0 ↦ ∞. -/
+theorem double_correct (a : XYZ) (h : a.ok) :
+    (XYZ.double a).ok ∧ (XYZ.double a).toPoint = Secp.dbl a.toPoint := double_ok a h
+
+/-- `XYZ.Add` (Jacobian + Jacobian) is the reference addition `Secp.add`, for EVERY pair of inputs within the
+    contract: ∞ + Q = Q, P + ∞ = P, equal affine x and equal y → `Double`, equal x and different y (P + (−P)) → ∞,
+    otherwise the chord formula; the result is again within the contract. -/
+theorem add_correct (a b : XYZ) (ha : a.ok) (hb : b.ok) :
+    (XYZ.add a b).ok ∧ (XYZ.add a b).toPoint = Secp.add a.toPoint b.toPoint := add_ok a b ha hb
+
+/-- `XYZ.AddXY` (Jacobian + affine), same statement; affine contract `XY.ok` = both coordinates magnitude ≤ 2. -/
+theorem addXY_correct (a : XYZ) (b : XY) (ha : a.ok) (hb : b.ok) :
+    (XYZ.addXY a b).ok ∧ (XYZ.addXY a b).toPoint = Secp.add a.toPoint b.toPoint := addXY_ok a b ha hb
+
+/-- `XYZ.Neg`, `XY.Neg`, `XYZ.SetXY` -/
+theorem neg_correct (a : XYZ) (ha : a.ok) : (XYZ.neg a).ok ∧ (XYZ.neg a).toPoint = Secp.neg a.toPoint := neg_ok a ha
+theorem negXY_correct (b : XY) (hb : b.ok) : (XY.neg b).ok ∧ (XY.neg b).toPoint = Secp.neg b.toPoint := negXY_ok b hb
+theorem ofXY_correct (b : XY) (hb : b.ok) : (XYZ.ofXY b).ok ∧ (XYZ.ofXY b).toPoint = b.toPoint := ofXY_ok b hb
+
+example : (XYZ.ofXY (precXY 0 0)).ok := (ofXY_ok _ (precXY_ok 0 0 (by decide))).1
+
+/-- pointwise form of the comb table (corollary of `prec_spec`): prec[j][i] = B_j + i·B_j with B_0 = G,
+    B_{j+1} = B_j + 15·B_j, all by repeated reference addition — i.e. (i+1)·16^j·G. -/
+theorem prec_pointwise (j i : Nat) (hj : j < 64) (hi : i < 16) :
+    ptOfLimbs (Tables.precAt (j * 16 + i)) = addSteps (precBase j) (precBase j) i := prec_pointwise' j i hj hi
+
+/-- `ECmultGen(a)` for EVERY a, step 1: the result is within the contract and stands for the reference sum
+    (…((T_0 + T_1) + T_2) + … + T_63) + fin of the table points T_j = prec[j][digit_j(a)] selected by the 64 hex
+    digits of a (64 applications of `addXY_correct`, table entries within the affine contract by evaluation). -/
+theorem ecmultGen_sum (a : Nat) : (ecmultGen a).ok ∧ (ecmultGen a).toPoint = ecmultGenRef a := ecmultGen_ref a
+
+/-- `ECmultGen(a) = (a mod 2^256)·G` for EVERY natural number a (0, n, values above n and 2^256−1 included):
+    the Jacobian result of the 64×16 comb over `prec` plus `fin` stands for the reference scalar multiple.
+    Uses: `ecmultGen_sum`, `prec_pointwise` (T_j = (d_j+1)·16^j·G), `fin_spec` (fin = −Σ 16^j·G) and the abelian group
+    structure of the reference law on curve points (Proofs/C03Curve: Mathlib's Weierstrass group law). -/
+theorem ecmultGen_correct (a : Nat) : (ecmultGen a).toPoint = Secp.mul (a % 2 ^ 256) Secp.G := ecmultGen_mul a
+
+/-- `ecmult_wnaf` as used by `ECmult` (w ≥ 2, |a| ≤ 2^128, either sign): the digit list represents a
+    (Σ dᵢ·2^i = a), every digit is 0 or odd with |d| < 2^(w−1), and there are at most 129 digits — the fixed
+    `[129]int` array is never overrun (`wnaf` returns `some`). -/
+theorem wnaf_sound (a : Int) (w : Nat) (hw : 2 ≤ w) (ha1 : -(2 : Int) ^ 128 ≤ a) (ha2 : a ≤ 2 ^ 128) :
+    ∃ ds, wnaf a w = some ds ∧ valD ds = a ∧ (∀ d ∈ ds, Dig w d) ∧ ds.length ≤ 129 := wnaf_ok a w hw ha1 ha2
+
+example : ∃ ds, wnaf (-7) 5 = some ds ∧ valD ds = -7 ∧ (∀ d ∈ ds, Dig 5 d) ∧ ds.length ≤ 129 :=
+  wnaf_sound (-7) 5 (by decide) (by norm_num) (by norm_num)
+
+/-- the general form: |a| ≤ 2^L (L < 400) gives a correct wNAF of at most L+1 digits -/
+theorem wnaf_sound_general (a : Int) (w : Nat) (hw : 2 ≤ w) (L : Nat) (hL : L < 400)
+    (ha1 : -(2 : Int) ^ L ≤ a) (ha2 : a ≤ 2 ^ L) :
+    valD (wnafAux w 400 a 0 []) = a ∧ (∀ d ∈ wnafAux w 400 a 0 [], Dig w d) ∧ (wnafAux w 400 a 0 []).length ≤ L + 1 :=
+  wnafAux_run a w hw L hL ha1 ha2
+
+/-- `XYZ.ECmult` cannot run into the Go index panic (the model's `none`): for EVERY point, EVERY integer na
+    and every ng < 2^256 the four wNAF expansions (λ-split halves of na, 128-bit halves of ng) fit. -/
+theorem ecmult_no_panic (a : XYZ) (na : Int) (ng : Nat) (hng : ng < 2 ^ 256) : (ecmult a na ng).isSome = true :=
+  ecmult_isSome a na ng hng
+
+/-- `XY.SetXO` (decompression, x-only lifting, the core of ParsePubkey 02/03 and DecompressPoint): for EVERY x of
+    magnitude ≤ 2 the result keeps x, y is fully normalised; if x³+7 is a square in F_p the point is on the curve,
+    and (for y ≠ 0, which always holds on secp256k1) y has the requested parity. -/
+theorem setXO_correct (x : Fe) (odd : Bool) (hx : x.mag 2) :
+    (XY.setXO x odd).x = x ∧ (XY.setXO x odd).inf = false ∧ (XY.setXO x odd).ok ∧ (XY.setXO x odd).y.normd ∧
+    (∀ r : F, r * r = x.z ^ 3 + 7 →
+      (XY.setXO x odd).y.z * (XY.setXO x odd).y.z = x.z ^ 3 + 7 ∧
+      ((XY.setXO x odd).y.z ≠ 0 → (((XY.setXO x odd).y.val % 2 = 1) ↔ odd = true))) := setXO_ok x odd hx
+
+/-- `XY.IsValid` decides the curve equation exactly -/
+theorem isValid_correct (a : XY) (ha : a.ok) :
+    XY.isValid a = true ↔ (a.inf = false ∧ a.y.z * a.y.z = a.x.z ^ 3 + 7) := isValid_iff a ha
+
+/-- `Number.split_exp` (GLV decomposition) for EVERY integer a: r1 + r2·λ ≡ a (mod n) … -/
+theorem split_exp_sound (a : Int) :
+    ((splitExp a).1 + (splitExp a).2 * (CurveConsts.lambda : Int) - a) % (CurveConsts.order : Int) = 0 :=
+  splitExp_sound a
+
+/-- … and |r1|, |r2| < 2^128 (so each half fits the 129-slot wNAF array). -/
+theorem split_exp_bound (a : Int) :
+    -340282366920938463463374607431768211456 < (splitExp a).1 ∧ (splitExp a).1 < 340282366920938463463374607431768211456 ∧
+    -340282366920938463463374607431768211456 < (splitExp a).2 ∧ (splitExp a).2 < 340282366920938463463374607431768211456 :=
+  splitExp_bound a
+
+/-
+  OPEN (covered by the differential run only — go/cmd/c08 compares the hand group model limb-for-limb with the
+  Go code and evaluates the statements on the real code against math/big):
+
+  -- OPEN: ecmult_correct: (ecmult a na ng).toPoint = na·A + ng·G. Proved pieces: split_exp_sound/bound, wnaf_sound,
+  --   ecmult_no_panic, add/addXY/double/neg_correct, preG_spec/preG128_spec. Missing: the interleaved-wNAF loop
+  --   invariant, XYZ.precomp (odd multiples), and the endomorphism fact λ·(x,y) = (β·x, y), which needs every curve
+  --   point to be a multiple of G, i.e. the explicit hypothesis #E(F_p) = n.
+  -- OPEN: XY.SetXYZ / GetPublicKey (Field.InvVar = big.Int.ModInverse, modelled by Secp.invMod; byte-level glue
+  --   beVal ∘ getB32 ∘ normalize not proved), mulLambda.
+  -- NOT COVERED: field_10x26.go (not compiled on 64-bit platforms).
 -/
 
 end GocoinV.Props.C08
